@@ -888,7 +888,7 @@ impl Prop for C12 {
     }
     fn strategy(_tier: Tier) -> BoxedStrategy<LeakCase> {
         use Leakable::*;
-        (proptest::sample::select(vec![ElemKind::Tr, ElemKind::Bx, ElemKind::U32]), 0u8..=14, 0u8..=14, any::<bool>(), proptest::sample::select(vec![DrainRow, DrainRow, DrainCol, DrainCol, DrainCol, PopRow, PopCol, Rows, RowsMut, Col, ColMut, Cells, CellsMut, View, ViewMut, IntoIter]), 0u8..14, 0u8..16, 0u8..16)
+        (proptest::sample::select(vec![ElemKind::Tr, ElemKind::Bx, ElemKind::U32]), prop_oneof![49 => 0u8..=14, 1 => 0u8..=60], prop_oneof![49 => 0u8..=14, 1 => 0u8..=60], any::<bool>(), proptest::sample::select(vec![DrainRow, DrainRow, DrainCol, DrainCol, DrainCol, PopRow, PopCol, Rows, RowsMut, Col, ColMut, Cells, CellsMut, View, ViewMut, IntoIter]), 0u8..14, 0u8..16, 0u8..16)
             .prop_map(|(elem, cols, rows, exact_cap, what, at, front, back)| {
                 let (cols, rows) = if cols == 0 || rows == 0 { (0, 0) } else { (cols, rows) };
                 LeakCase { elem, cols, rows, exact_cap, what, at, front, back }
